@@ -15,6 +15,7 @@ import (
 	"time"
 
 	"github.com/gofiber/fiber/v3"
+	"github.com/valyala/fasthttp"
 
 	"verif.local/sim/harness"
 	"verif.local/sim/simrt"
@@ -278,6 +279,11 @@ func (r *flashRun) genGo(op *flashOp) {
 			ib := 100
 			op.inputs = append(op.inputs, flashMsg{Key: k, Value: r.str(&ib), Old: true})
 		}
+	}
+	if len(op.inputs) > 0 && len(op.with) > 0 && s.Chance(300) {
+		// a message keyed like a submitted field (a validation error next to the old input of that field):
+		// messages and old input are separate things
+		op.with[len(op.with)-1].Key = op.inputs[s.Draw(len(op.inputs))].Key
 	}
 	op.route = s.Chance(250)
 	op.routeQueries = op.route && s.Chance(500)
@@ -1022,7 +1028,8 @@ func flashMain(s *simrt.Sim, info *harness.RunInfo) {
 	// the application's error handler: the default one, a custom one, or a custom one that itself fails
 	// (fault: the framework then answers 500 on its own) - the consumed cookie must be expired regardless
 	ehMode := simrt.PickS(s, 0, 0, 1, 2)
-	fcfg := fiber.Config{}
+	// (comma splitting is a matter of the application's binders; old input is taken as submitted)
+	fcfg := fiber.Config{EnableSplittingOnParsers: s.Chance(300)}
 	if ehMode > 0 {
 		fcfg.ErrorHandler = func(c fiber.Ctx, err error) error {
 			if ehMode == 2 {
@@ -1320,6 +1327,17 @@ func (r *flashRun) issue(bi int, op *flashOp, wire flashWire, err error, what, r
 		b.Del(flashName)
 		outcome = "undeliverable"
 		s.Count("probe_cookie_unusable_for_any_client")
+		// no client can carry this value and no HTTP parser lets it through (the known wire-format finding).
+		// What the encoder wrote must still be what the decoder reads: the bytes are handed to the
+		// application behind the request parser
+		if sc := op.srvCookie; !r.dead && strings.HasPrefix(sc, flashName+"=") && s.Chance(500) {
+			// the value exactly as the server wrote it (what a client makes of the line is cut at the first illegal byte)
+			v := sc[len(flashName)+1:]
+			if i := strings.LastIndex(v, "; path="); i >= 0 {
+				v = v[:i]
+			}
+			r.inProcess(bi, op, v)
+		}
 	default:
 		path := wire.path
 		if path == "" {
@@ -1560,6 +1578,28 @@ func (r *flashRun) request(bi int, kind string, depth int) {
 		}
 	}
 	r.h.str(kind).int(bi).int(op.failCode).str(outcome)
+}
+
+// inProcess presents an issued cookie value to the application without a wire in between.
+func (r *flashRun) inProcess(bi int, pending *flashOp, value string) {
+	op := &flashOp{id: len(r.ops), browser: bi, kind: "show", read: true, path: "/show"}
+	r.ops = append(r.ops, op)
+	conn := r.conns[bi]
+	conn.BeforeHandler = func(ctx *fasthttp.RequestCtx) { ctx.Request.Header.SetCookie(flashName, value) }
+	resp := conn.Do(harness.Req{Method: "GET", Path: "/show", Headers: [][2]string{{"X-Op", strconv.Itoa(op.id)}, {"X-Carries", flashName}}}.Bytes()) // (fiber looks for the cookie's name in the raw header block first)
+	conn.BeforeHandler = nil
+	r.s.Logf("op%d b%d GET /show with the cookie of op%d handed over behind the request parser (%d bytes, the application sees %d): status=%d ran=%v msgs=%s", op.id, bi, pending.id, len(value), len(op.cookie), resp.Status, op.ran, flashList(op.msgs))
+	if resp.ReadErr != nil || !op.ran {
+		return
+	}
+	if alts := flashExpected(pending); !flashMatches(op.msgs, alts) {
+		r.fail("C12.codec-roundtrip", "op%d b%d: the cookie value issued for op%d (With %s hasLevel=%v inputs %s), handed to the application behind the request parser, decodes to %s", op.id, bi, pending.id, flashList(pending.with), pending.hasLevel, flashList(pending.inputs), flashList(op.msgs))
+		return
+	}
+	r.s.Count("probe_delivered_behind_the_parser")
+	if len(pending.inputs) > 0 {
+		r.s.Count("probe_old_input_delivered_behind_the_parser")
+	}
 }
 
 func (r *flashRun) checkDelivery(op, pending *flashOp, tier string, resp *harness.Resp, what, cookie string) string {
